@@ -141,12 +141,19 @@ theorem endRange_soft (s s' : DC) (id : Str) (h : s.endRange id = .ok s') : Soft
   obtain ⟨_, _, h⟩ := bind_ok h
   have := pure_ok h; subst this; exact soft_of_openPars rfl
 
-theorem noteLabel_soft (s s' : DC) (x : Xml) (k : String) (h : noteLabel s x k = .ok s') : Soft s s' := by
+/-- a note label: the open paragraphs keep their elements, or a pending implicit paragraph was concluded -/
+theorem noteLabel_elems (s s' : DC) (x : Xml) (k : String) (h : noteLabel s x k = .ok s') :
+    elems s' = elems s ∨ elems s' = (elems s).dropLast := by
   unfold noteLabel at h
   obtain ⟨_, _, h⟩ := bind_ok h
   split at h
-  · have := pure_ok h; subst this; exact Soft.refl s
-  · obtain ⟨_, _, h⟩ := bind_ok h; have := pure_ok h; subst this; exact soft_of_openPars rfl
+  · have := pure_ok h; subst this; exact Or.inl rfl
+  · obtain ⟨_, _, h⟩ := bind_ok h
+    obtain ⟨s0, h0, h⟩ := bind_ok h
+    have := pure_ok h; subst this
+    rcases flushImplicit_cases s s0 _ h0 with e | e
+    · subst e; exact Or.inl rfl
+    · exact Or.inr (concludePar_elems s s0 e)
 
 theorem openParagraph_elems (cfg : PartCfg) (s s' : DC) (x : Xml) (c : Bool) (h : openParagraph cfg s x c = .ok s') :
     elems s' = elems s ++ [x.id?] := by
@@ -181,12 +188,12 @@ theorem par_of_member (pt : Str) (h : tagMember pt = some "PARAGRAPH") : pt = pa
 
 theorem openStep_elems (cfg : PartCfg) (s s' : DC) (x : Xml) (c : Bool) (roots : List (List Nest)) (r : Bool)
     (h : openStep cfg s x c roots = .ok (s', r)) :
-    (tagMember x.ptag = some "PARAGRAPH" ∧ elems s' = elems s ++ [x.id?]) ∨ Soft s s' := by
+    (tagMember x.ptag = some "PARAGRAPH" ∧ elems s' = elems s ++ [x.id?]) ∨ Soft s s' ∨ elems s' = (elems s).dropLast := by
   unfold openStep at h
-  have wt : ∀ (X : M DC), (∀ t, X = .ok t → Soft s t) → ∀ r, withTrue X = .ok (s', r) → Soft s s' :=
-    fun X hX r hr => hX s' (withTrue_ok hr).1
-  have wf : ∀ (X : M DC), (∀ t, X = .ok t → Soft s t) → ∀ r, withFalse X = .ok (s', r) → Soft s s' :=
-    fun X hX r hr => hX s' (withFalse_ok hr).1
+  have wt : ∀ (X : M DC), (∀ t, X = .ok t → Soft s t) → ∀ r, withTrue X = .ok (s', r) → Soft s s' ∨ elems s' = (elems s).dropLast :=
+    fun X hX r hr => Or.inl (hX s' (withTrue_ok hr).1)
+  have wf : ∀ (X : M DC), (∀ t, X = .ok t → Soft s t) → ∀ r, withFalse X = .ok (s', r) → Soft s s' ∨ elems s' = (elems s).dropLast :=
+    fun X hX r hr => Or.inl (hX s' (withFalse_ok hr).1)
   split at h
   · rename_i hm
     exact Or.inl ⟨hm, openParagraph_elems cfg s s' x c (withTrue_ok h).1⟩
@@ -202,8 +209,12 @@ theorem openStep_elems (cfg : PartCfg) (s s' : DC) (x : Xml) (c : Bool) (roots :
       split at ht
       · exact addCode_soft cfg.html s t _ ht
       · have := pure_ok ht; subst this; exact Soft.refl s) r h)
-  · exact Or.inr (wt _ (fun t ht => noteLabel_soft s t x _ ht) r h)
-  · exact Or.inr (wt _ (fun t ht => noteLabel_soft s t x _ ht) r h)
+  · rcases noteLabel_elems s s' x _ (withTrue_ok h).1 with e | e
+    · exact Or.inr (Or.inl (soft_of_elems e))
+    · exact Or.inr (Or.inr e)
+  · rcases noteLabel_elems s s' x _ (withTrue_ok h).1 with e | e
+    · exact Or.inr (Or.inl (soft_of_elems e))
+    · exact Or.inr (Or.inr e)
   · exact Or.inr (wf _ (fun t ht => openHyperlink_preserves (P := fun a => Soft s a) cfg
       (fun a id b ha hb => ha.trans (startRange_soft a b id hb)) (fun a tx b ha hb => ha.trans (insertNewRun_soft cfg.html a b tx hb))
       (fun a id b ha hb => ha.trans (endRange_soft a b id hb)) s t x roots (Soft.refl s) ht) r h)
@@ -215,7 +226,7 @@ theorem openStep_elems (cfg : PartCfg) (s s' : DC) (x : Xml) (c : Bool) (roots :
   · exact Or.inr (wt _ (fun t ht => by obtain ⟨tx, _, ht⟩ := bind_ok ht; exact insertOpt_soft cfg.html s t _ ht) r h)
   · exact Or.inr (wt _ (fun t ht => insertOpt_soft cfg.html s t _ ht) r h)
   · exact Or.inr (wt _ (fun t ht => insertNewRun_soft cfg.html s t _ ht) r h)
-  · have := pure_ok h; cases this; exact Or.inr (Soft.refl s)
+  · have := pure_ok h; cases this; exact Or.inr (Or.inl (Soft.refl s))
 
 theorem flushImplicit_sole (s s' : DC) (d : Option Nat) (hs : Sole (elems s)) (h : s.flushImplicit d = .ok s') :
     Sole (elems s') ∧ (d.isSome = true → AllSome (elems s')) := by
@@ -280,7 +291,9 @@ theorem walk_sole (cfg : PartCfg) (num : Dict Str (List NumAttr)) :
         rcases List.mem_append.1 he with he | he
         · exact a1 e he
         · simp at he; subst he; rfl
-      · exact hsoft.sole (by rw [e1]; exact hs0)
+      · rcases hsoft with hsoft | hdrop
+        · exact hsoft.sole (by rw [e1]; exact hs0)
+        · rw [hdrop]; exact sole_dropLast (by rw [e1]; exact hs0)
     obtain ⟨s3, h3, h⟩ := bind_ok h
     have hs3 : Sole (elems s3) := by
       simp only at h3
